@@ -9,6 +9,7 @@
 package rtsp
 
 import (
+	"github.com/q191201771/naza/pkg/nazaatomic"
 	"sync"
 
 	"github.com/q191201771/lal/pkg/base"
@@ -42,6 +43,7 @@ type PullSession struct {
 
 	disposeOnce sync.Once
 	waitChan    chan error
+	disposeFlag nazaatomic.Int32 // 非0表示已经dispose
 }
 
 type ModPullSessionOption func(option *PullSessionOption)
@@ -217,6 +219,10 @@ func (session *PullSession) OnConnectResult() {
 // OnDescribeResponse callback by ClientCommandSession
 func (session *PullSession) OnDescribeResponse(sdpCtx sdp.LogicContext) {
 	session.onDescribeResponse()
+	if session.disposeFlag.Load() != 0 {
+		// 上层在回调中拒绝并销毁了这个session（比如流已经有其他输入了），不能再把它的sdp交给上层
+		return
+	}
 	session.baseInSession.InitWithSdp(sdpCtx)
 }
 
@@ -254,6 +260,7 @@ func (session *PullSession) WriteInterleavedPacket(packet []byte, channel int) e
 func (session *PullSession) dispose(err error) error {
 	var retErr error
 	session.disposeOnce.Do(func() {
+		session.disposeFlag.Store(1)
 		Log.Infof("[%s] lifecycle dispose rtsp PullSession. session=%p", session.UniqueKey(), session)
 		e1 := session.cmdSession.Dispose()
 		e2 := session.baseInSession.Dispose()
